@@ -97,6 +97,52 @@ def project(ep, client):
     return [ep[0]] + [l for l in ep[1:] if l.split()[1] == "cleanup" or l.split()[2] == client]
 
 
+GATE_CLIENTS = ["10.0.0.1", "10.0.0.2", "10.0.0.11", "2001:db8::1", "2001:db8::2", "2001:db8::1:1", "::1", "::2",
+                "fe80::1", "203.0.113.7", "198.51.100.200", "1.2.3.4"]
+
+
+def gate_episode(rng):
+    """The limiter as the balancer applies it: one bucket per client identity (first
+    X-Forwarded-For element). All requests at the same instant, so nothing refills."""
+    mx = rng.choice([1, 2, 3, 5])
+    ep = ["lb new round_robin 0 1 1 1 %d 3600 0 0 0 0 0 0" % mx, "lb add g0 1 good"]
+    clients = rng.sample(GATE_CLIENTS, rng.randint(2, 6))
+    tid = 0
+    for _ in range(rng.randint(6, 40)):
+        c = rng.choice(clients)
+        xff = c if rng.random() < 0.7 else c + rng.choice([", 10.9.9.9", ",192.0.2.1", " , 10.0.0.99"])
+        tid += 1
+        ep.append("lb begin %d 0 %s - 192.0.2.50:4000" % (tid, lbgen_enc(xff)))
+        ep.append("lb end %d 0 200" % tid)
+    return ep
+
+
+def gate_oracle(ep, outs):
+    """each client identity is admitted exactly min(requests, max_tokens) times, whatever the others do"""
+    ol = C.op_lines(ep)
+    mx = int(ol[0].split()[7])
+    seen = {}
+    fails = []
+    for l, o in zip(ol, outs):
+        w = l.split()
+        if w[1] != "begin":
+            continue
+        from urllib.parse import unquote
+        client = unquote(w[4]).split(",")[0].strip()
+        n = seen.get(client, 0)
+        if n < mx and o.startswith("resp 429"):
+            fails.append("client %s refused on its request #%d although its own bucket holds %d tokens (another client's traffic was charged to it): %s" % (client, n + 1, mx, l))
+        if n >= mx and not o.startswith("resp 429"):
+            fails.append("client %s admitted on its request #%d beyond its %d tokens: %s" % (client, n + 1, mx, l))
+        seen[client] = n + 1
+    return fails
+
+
+def lbgen_enc(s):
+    from ..lbgen import enc
+    return enc(s)
+
+
 def check(ctx):
     ctx.assumptions += [
         "time is the virtual clock injected by the overlay (time.Now/time.Since rewritten); monotone non-decreasing",
@@ -134,6 +180,14 @@ def check(ctx):
                     "ops": episodes[idx], "impl_outputs": si[idx], "projected_ops": episodes[pidx],
                     "projected_outputs": si[pidx]})
                 break
+    # the limiter behind the balancer's client-identity extraction (per-client isolation end to end)
+    from . import c02
+    lbbin = c02.build(ctx)
+    dg = C.Differential(ctx, lbbin)
+    dg.n = 500
+    gate_eps = [gate_episode(ctx.rng) for _ in range(300 if ctx.thorough() else 60)]
+    dg.check(gate_eps, oracle=gate_oracle, label="gate")
+    ctx.cov["gate_episodes"] = len(gate_eps)
     # coverage accounting
     nontriv = set()
     kinds = {"allow": 0, "cleanup": 0}
